@@ -569,4 +569,16 @@ def check(ctx):
         r5_state_machine(ctx, f, rep, eff)
         r6_reevaluate(ctx, f, rep)
         r7_accumulating(ctx, f, rep)
+        from . import c10
+        from .c09 import _Rename
+        from .lib.symx import place_root
+        c10.r4_rejoin_or_defunct(ctx, f, _Rename(rep, 'C10-R4', 'C08-R5'))
+        eb = f.fn('member::Members::apply_existing_if')
+        for p in ctx.paths(f, eb, 'none'):
+            ws = [w for w in p.writes() if q.field_path(w['place'])[1][-1:] == ['id'] and place_root(w['place'])[0] == 'deref']
+            if ws and p.end == 'return':
+                conf = q.agg_field(p.ret[5][0], 'conflict')
+                rep.check(q.variant_name(conf) == 'Replaced' and conf[5][0] == ws[0].get('old'), 'C08-R2', eb.nname,
+                          'Rename\'s first identity is the one that was stored before the replacement', site=ws[0]['span'],
+                          construct='replaced-reports-old')
     rep.cur_config = None
